@@ -1,7 +1,8 @@
 (* C12 - listeners run by priority then registration order until propagation stops.
-   Statements only; proofs are in Proofs/DispatcherLemmas.v. *)
+   Statements only; proofs are in Proofs/DispatcherLemmas.v and (the query half, at the end
+   of this file) Proofs/DispatcherQueryLemmas.v. *)
 From Coq Require Import Permutation Sorted.
-From Clikit Require Import Base.Prelude Model.Dispatcher Proofs.DispatcherLemmas.
+From Clikit Require Import Base.Prelude Model.Dispatcher Proofs.DispatcherLemmas Proofs.DispatcherQueryLemmas.
 
 (* For EVERY sequence of registrations, dispatches and queries, every dispatch,
    get_listeners(event) and has_listeners answer of the dispatcher model equals the answer
@@ -49,3 +50,144 @@ Example c12_history :
   drun dinit [Add 0 0 false; Add 0 5 false; Add 1 9 false; Add 0 0 true; Dispatch 0; Add 0 7 false; Dispatch 0; Dispatch 2]
   = [ONone; ONone; ONone; ONone; OCalled [1; 0; 3]; ONone; OCalled [4; 1; 0; 3]; OCalled []]%N.
 Proof. vm_compute. reflexivity. Qed.
+
+(* ================================================================== *)
+(* The query half: get_listeners() (all events), get_listener_priority, has_listeners().
+   [qstep] (Proofs/DispatcherQueryLemmas.v) is a spec over the registration log plus the key
+   order of the dict that get_listeners() hands out; unlike [covered] above, it answers
+   EVERY op of [dop].                                                                     *)
+
+(* For EVERY op sequence the model's outputs are, op by op, the spec's outputs:
+   no op is excluded (compare [covered] in dispatch_refines). *)
+Theorem queries_refine : forall ops, drun dinit ops = qrun qinit ops.
+Proof. exact queries_refine_lemma. Qed.
+Print Assumptions queries_refine.
+
+(* The spec keeps exactly the log of [sstep] and answers every op except get_listeners()
+   with [sstep]'s answer; get_listeners() is  all_of regs (touch_all regs keys):
+   cached events first (cache fill order), then the others in first-registration order,
+   each with [spec_order regs ev]. *)
+Theorem qspec_keeps_log : forall q o, fst (fst (qstep q o)) = fst (sstep (fst q) o).
+Proof. exact qstep_log. Qed.
+Print Assumptions qspec_keeps_log.
+Theorem qspec_answers_as_sstep : forall q o, o <> GetAll -> snd (qstep q o) = snd (sstep (fst q) o).
+Proof. exact qstep_out. Qed.
+Print Assumptions qspec_answers_as_sstep.
+Theorem qspec_get_all : forall regs keys,
+  snd (qstep (regs, keys) GetAll) = OAll (map (fun e => (e, spec_order regs e)) (touch_all regs keys)).
+Proof. reflexivity. Qed.
+Print Assumptions qspec_get_all.
+
+(* The log after an op sequence: its Add ops in order, the i-th carrying listener id i. *)
+Theorem log_is_the_adds : forall ops, map reg_data (log_of ops) = adds_of ops.
+Proof. exact log_adds. Qed.
+Print Assumptions log_is_the_adds.
+Theorem log_ids_are_positions : forall ops i r, nth_error (log_of ops) i = Some r -> r_lid r = N.of_nat i.
+Proof. exact log_numbered. Qed.
+Print Assumptions log_ids_are_positions.
+
+(* 1. get_listeners() after any op sequence, as a finite map: exactly the events that have
+   ever had a listener registered, each once, each with the spec order of its listeners. *)
+Theorem get_all_answer : forall ops d,
+  snd (dstep (dafter dinit ops) GetAll) = OAll d ->
+  let regs := log_of ops in
+  d = map (fun e => (e, spec_order regs e)) (map fst d) /\
+  NoDup (map fst d) /\
+  (forall e, In e (map fst d) <-> has_reg regs e = true) /\
+  (forall e, aget N.eqb e d = if has_reg regs e then Some (spec_order regs e) else None).
+Proof. exact get_all_answer_lemma. Qed.
+Print Assumptions get_all_answer.
+
+(* 2. get_listener_priority(ev, lid) after any op sequence: the priority of the lid-th
+   registration if that registration was for ev; None for another event's listener and for
+   an id that was never registered. *)
+Theorem get_listener_priority_answer : forall ops ev lid,
+  snd (dstep (dafter dinit ops) (Prio ev lid)) =
+  OPrio (match nth_error (log_of ops) (N.to_nat lid) with
+         | Some r => if N.eqb (r_ev r) ev then Some (r_prio r) else None
+         | None => None
+         end).
+Proof. exact prio_answer_lemma. Qed.
+Print Assumptions get_listener_priority_answer.
+
+(* 3. has_listeners() after any op sequence: something has been registered. *)
+Theorem has_listeners_any_answer : forall ops,
+  snd (dstep (dafter dinit ops) (Has None)) = OBool (negb (match log_of ops with [] => true | _ => false end)).
+Proof. exact has_any_answer_lemma. Qed.
+Print Assumptions has_listeners_any_answer.
+
+(* What the priority search does on ARBITRARY groups (an id in several buckets = the same
+   callable registered under several priorities, which [dstep] cannot produce because every
+   Add uses a fresh id): the first bucket in dict order that contains the id. *)
+Theorem find_prio_first_bucket : forall g lid p,
+  find_prio g lid = Some p <->
+  exists g1 ls g2, g = g1 ++ (p, ls) :: g2 /\ In lid ls /\ Forall (fun pl => ~ In lid (snd pl)) g1.
+Proof. exact find_prio_first. Qed.
+Print Assumptions find_prio_first_bucket.
+Theorem find_prio_absent : forall g lid,
+  find_prio g lid = None <-> Forall (fun pl => ~ In lid (snd pl)) g.
+Proof. exact find_prio_none_iff. Qed.
+Print Assumptions find_prio_absent.
+
+(* [gadd] is add_listener's bucket update with a caller-chosen id ... *)
+Theorem add_listener_uses_gadd : forall st ev prio stops,
+  d_listeners (add_listener st ev prio stops) =
+  aset N.eqb ev (gadd (match aget N.eqb ev (d_listeners st) with Some g => g | None => [] end) prio (d_next st))
+       (d_listeners st).
+Proof. exact add_listener_gadd. Qed.
+Print Assumptions add_listener_uses_gadd.
+(* ... and for ANY list of (priority, id) registrations of one event, ids repeated or not,
+   the answer is the first priority, in order of FIRST USE of the priorities for that event,
+   under which the id was registered. *)
+Theorem get_listener_priority_repeated : forall l lid,
+  find_prio (gbuild l) lid = find (registered_at l lid) (prios_of l).
+Proof. exact find_prio_gbuild. Qed.
+Print Assumptions get_listener_priority_repeated.
+
+(* With a repeated id that answer is neither the priority of the id's first registration,
+   nor of its last registration, nor its highest priority: it depends on which priorities
+   OTHER listeners used first.  Listener 1 below is registered with 5 then 3; listener 0
+   used priority 3 before. *)
+Example prio_first_registration_refuted :
+  let l := [(3%Z, 0%N); (5%Z, 1%N); (3%Z, 1%N)] in
+  find_prio (gbuild l) 1 = Some 3%Z /\
+  option_map fst (find (fun pl => N.eqb (snd pl) 1) l) = Some 5%Z.
+Proof. vm_compute. split; reflexivity. Qed.
+Example prio_highest_refuted :
+  find_prio (gbuild [(3%Z, 0%N); (5%Z, 1%N); (3%Z, 1%N)]) 1 = Some 3%Z /\
+  find_prio (gbuild [(5%Z, 1%N); (3%Z, 1%N)]) 1 = Some 5%Z.
+Proof. vm_compute. split; reflexivity. Qed.
+Example prio_last_registration_refuted :
+  find_prio (gbuild [(3%Z, 1%N); (5%Z, 1%N)]) 1 = Some 3%Z.
+Proof. vm_compute. reflexivity. Qed.
+
+(* Non-vacuity of the query half: two events, three priorities (0, 5, -1), listener 2 queried
+   under both events (Some 5 / None), listener 1 likewise, ids 3 and 4, an unregistered id;
+   get_listeners() lists event 1 BEFORE event 0 while only event 1 is cached (Get 1), and in
+   registration order after event 1's cache entry was dropped by the next registration. *)
+Example c12_query_history :
+  drun dinit [Add 0 0 false; Add 1 5 false; Add 0 5 false; Get 1; Add 0 (-1) true; Add 0 5 false; GetAll;
+              Prio 0 2; Prio 1 2; Prio 0 1; Prio 1 1; Prio 0 3; Prio 0 4; Prio 0 5; Has None;
+              Add 1 (-1) false; GetAll; Dispatch 0; GetAll]
+  = [ONone; ONone; ONone; OList [1]; ONone; ONone; OAll [(1, [1]); (0, [2; 4; 0; 3])];
+     OPrio (Some 5%Z); OPrio None; OPrio None; OPrio (Some 5%Z); OPrio (Some (-1)%Z); OPrio (Some 5%Z); OPrio None;
+     OBool true; ONone; OAll [(0, [2; 4; 0; 3]); (1, [1; 5])]; OCalled [2; 4; 0; 3];
+     OAll [(0, [2; 4; 0; 3]); (1, [1; 5])]]%N.
+Proof. vm_compute. reflexivity. Qed.
+Example c12_query_history_spec :
+  qrun qinit [Add 0 0 false; Add 1 5 false; Add 0 5 false; Get 1; Add 0 (-1) true; Add 0 5 false; GetAll;
+              Prio 0 2; Prio 1 2; Prio 0 1; Prio 1 1; Prio 0 3; Prio 0 4; Prio 0 5; Has None;
+              Add 1 (-1) false; GetAll; Dispatch 0; GetAll]
+  = [ONone; ONone; ONone; OList [1]; ONone; ONone; OAll [(1, [1]); (0, [2; 4; 0; 3])];
+     OPrio (Some 5%Z); OPrio None; OPrio None; OPrio (Some 5%Z); OPrio (Some (-1)%Z); OPrio (Some 5%Z); OPrio None;
+     OBool true; ONone; OAll [(0, [2; 4; 0; 3]); (1, [1; 5])]; OCalled [2; 4; 0; 3];
+     OAll [(0, [2; 4; 0; 3]); (1, [1; 5])]]%N.
+Proof. vm_compute. reflexivity. Qed.
+(* the same callable (id 7) registered for one event under 0, then 5, then 0 again, among other
+   listeners that opened bucket 5 first: buckets 5:[1;7], 0:[7;7], -1:[3]; answer 5 *)
+Example c12_repeated_listener :
+  let l := [(5%Z, 1%N); (0%Z, 7%N); ((-1)%Z, 3%N); (5%Z, 7%N); (0%Z, 7%N)] in
+  gbuild l = [(5%Z, [1; 7]%N); (0%Z, [7; 7]%N); ((-1)%Z, [3]%N)] /\
+  find_prio (gbuild l) 7 = Some 5%Z /\ find_prio (gbuild l) 3 = Some (-1)%Z /\ find_prio (gbuild l) 9 = None /\
+  sort_listeners (gbuild l) = [1; 7; 7; 7; 3]%N.
+Proof. vm_compute. repeat split; reflexivity. Qed.
